@@ -319,10 +319,14 @@ impl<'a> Gen<'a> {
     }
 
     pub fn asset_expr(&mut self, d: u32) -> tir::AssetExpr {
-        let (policy, name) = match self.r.below(4) {
+        let (policy, name) = match self.r.below(if self.allow_params { 6 } else { 4 }) {
             0 | 1 => (E::None, E::None),
             2 => (E::Bytes(policy_bytes(0x11)), E::Bytes(b"t1".to_vec())),
-            _ => (E::Bytes(policy_bytes(0x22)), E::String("t2".into())),
+            3 => (E::Bytes(policy_bytes(0x22)), E::String("t2".into())),
+            // the asset name (or the policy) is itself a parameter: an asset list that is not
+            // yet constant although its amounts are
+            4 => (E::Bytes(policy_bytes(0x11)), self.param("b", Type::Bytes)),
+            _ => (self.param("b", Type::Bytes), E::Bytes(b"t1".to_vec())),
         };
         tir::AssetExpr { policy, asset_name: name, amount: self.int(d.saturating_sub(1)) }
     }
@@ -426,7 +430,15 @@ impl<'a> Gen<'a> {
             2 => E::Tuple(Box::new((self.any(d - 1), self.any(d - 1)))),
             3 => E::Struct(tir::StructExpr { constructor: self.r.below(200) as usize, fields: vec![self.any(d - 1)] }),
             4 => E::Assets(vec![tir::AssetExpr { policy: self.any(d - 1), asset_name: self.any(d - 1), amount: self.int(d - 1) }]),
-            5 => bx(tir::Param::Set(self.any(d - 1))),
+            5 => {
+                // Param::Set holds what apply_args puts there: a constant argument value
+                let v = match self.r.below(3) {
+                    0 => E::Number(self.small_int()),
+                    1 => E::Bytes(self.bytes_lit()),
+                    _ => E::Bool(self.r.chance(1, 2)),
+                };
+                bx(tir::Param::Set(v))
+            }
             6 => self.param("w", Type::Undefined),
             7 => bx(tir::BuiltInOp::NoOp(self.any(d - 1))),
             8 => bx(tir::BuiltInOp::Add(self.any(d - 1), self.any(d - 1))),
